@@ -266,11 +266,29 @@ def same_value(sym, val):
 
 
 def locked(sc):
-    """Locked by an active 'set' (any type) or by an active 'select' (bool)."""
+    """
+    Locked by an active 'set' (int/hex/float/string) or by an active 'select' (bool).  Like for 'default', the first
+    'set' whose condition holds decides; it can only pin the option to a value the option's type can have: when the
+    operand's current value is not such a value (e.g. 'set F=OTHER' while OTHER has no value) there is nothing the
+    option could be locked to, the library ignores that 'set' with a note, and the option counts as not locked.
+    The operand's VALUE is what the documented grammar ('set TARGET=(value | symbol)') assigns, not its name.
+    """
     if not isinstance(sc, K.Symbol):
         return False
-    if any(K.expr_value(cond) for _v, cond, _s in sc.rev_values):
-        return True
+    for v, cond, _s in sc.rev_values:
+        if K.expr_value(cond):
+            val = v.str_value
+            try:
+                if sc.orig_type == K.INT:
+                    int(val, 10)
+                elif sc.orig_type == K.HEX:
+                    int(val, 16)
+                elif sc.orig_type == K.FLOAT:
+                    if not K.is_float(val):
+                        return False
+            except ValueError:
+                return False
+            return True
     return sc.orig_type == K.BOOL and not sc.choice and K.expr_value(sc.rev_dep) == 2
 '''
 
@@ -1024,7 +1042,10 @@ class _UI:
     def sync(self):
         node = self.cur_node()
         if node is not None and node in self.st.shown:
-            self.x("st.sel_node_i = st.shown.index(%s)  # _sync_sel_node_i: cursor is on %s" % (self.n(node), self.label(node)))
+            # the guard is app._sync_sel_node_i's own; it keeps the replay of this history on a CHANGED tree (where the
+            # row may not exist) from raising in the script itself
+            self.x("st.sel_node_i = st.shown.index(%s) if %s in st.shown else st.sel_node_i  # _sync_sel_node_i: cursor is on %s"
+                   % (self.n(node), self.n(node), self.label(node)))
 
     # ---- handlers ----------------------------------------------------------------------------------
 
@@ -1762,7 +1783,9 @@ def _exception_violation(ui, action, e, prop, phase):
                 and phase == "ui":
             cls += ":" + _menu_kind(ui)
         contract = CONTRACTS["C17"][0]
-    detail = "%s raised %s: %s (in `%s`)" % (_describe(action), type(e.exc).__name__, str(e.exc).strip()[:160], e.code.split("  #")[0])
+    # scratch directory names are random: keep them out of the (otherwise deterministic) detail text
+    what = re.sub(r"(?:/[\w.\-]+)*/drvmc[^/\s]*/", "<tmp>/", str(e.exc).strip())
+    detail = "%s raised %s: %s (in `%s`)" % (_describe(action), type(e.exc).__name__, what[:160], e.code.split("  #")[0])
     return _Violation(cls, contract, detail, "EXC:" + type(e.exc).__name__)
 
 
@@ -1827,6 +1850,10 @@ def fresh_dirty(d, text, rename, pv, hdr, cfg):
     if exc_kind:
         body.append(ind + "except %s as e:" % "Exception")
         body.append(ind2 + "import traceback; traceback.print_exc()")
+        body.append(ind2 + "in_lib = any(os.path.realpath(f.filename).startswith(os.path.realpath(REPO) + os.sep)"
+                           " for f in traceback.extract_tb(e.__traceback__))")
+        body.append(ind2 + "if not in_lib:")
+        body.append(ind2 + "    print('the replay itself failed (no library frame): violation does not show'); return 0")
         body.append(ind2 + "print('VIOLATION (%s):', type(e).__name__, e)" % v.case_class)
         body.append(ind2 + "return 1 if type(e).__name__ == %r else 0" % v.final[4:])
         body.append(ind + "print('no exception')")
